@@ -340,9 +340,9 @@ impl ImplicitConversion {
             None
             | Some(DimensionCast(Scalar, Vector(1)))
             | Some(DimensionCast(Vector(1), Scalar)) => VectorRank::Exact,
-            Some(DimensionCast(Scalar, Vector(_))) | Some(DimensionCast(Vector(1), Vector(_))) => {
-                VectorRank::Expand
-            }
+            Some(DimensionCast(Scalar, Vector(_)))
+            | Some(DimensionCast(Vector(1), Vector(_)))
+            | Some(DimensionCast(Scalar, rssl_ir::NumericDimension::Matrix(_, _))) => VectorRank::Expand,
             Some(DimensionCast(Vector(_), Scalar)) => VectorRank::Contract,
             Some(DimensionCast(Vector(ref l), Vector(ref r))) if l > r => VectorRank::Contract,
             Some(DimensionCast(from, to)) => panic!("invalid vector cast {from:?} {to:?}"),
